@@ -7,7 +7,9 @@ NOT_APPLICABLE = {}
 
 CHECKS = {
  "C05": dict(
-  text="TLC checks PromiseAbs (single assignment, exactly-once delivery) exhaustively, checks that the CAS-level model "
+  text="TLC checks PromiseAbs (single assignment, exactly-once delivery) exhaustively for 3 callbacks x 2 completers and the TLA+ proof "
+       "system (tlapm, 39 obligations) proves its inductive invariant and the safety clauses for ANY number of callbacks and "
+       "completers (PromiseAbsProof); TLC checks that the CAS-level model "
        "Promise.tla with Go slice semantics satisfies its invariants, terminates under fairness and refines PromiseAbs for "
        "all interleavings of 2-3 registrars, 2 completers and 0-4 pre-registered callbacks, and rejects the in-place-append "
        "variant. The real fp.Promise is then run under a cooperative scheduler that owns every atomic Get/Load/CAS step: an "
@@ -15,8 +17,8 @@ CHECKS = {
        "schedules for large ones (all registration methods, executors, nested registration, zero value); every recorded "
        "execution must be accepted by TLC as a behaviour of PromiseAbs.",
   note="Trusted: TLC, the harness scheduler (one goroutine runs at a time, yield points = first line of every "
-       "internal/atomic.Value method), Go's memory model between yield points. Bounded populations; unbounded thread counts "
-       "are not proved.",
+       "internal/atomic.Value method), Go's memory model between yield points, tlapm and its SMT back end for the unbounded proof. The "
+       "refinement Promise => PromiseAbs and the executions of the real code are for bounded populations.",
   technique="TLA+ refinement (Promise => PromiseAbs) model-checked with TLC; schedule replay + TLC trace validation of the real code"),
  "C19": dict(
   text="TLC checks that Cow.tla (the blocks between the yield points of load/copyOnWrite, ComputeIf as read / locked "
